@@ -414,6 +414,16 @@ func minInt(a, b int) int {
 	return b
 }
 
+// one representative line per kind of both grammars (plus near misses)
+var lineKinds = []string{
+	"goroutine 1 [running]:", "goroutine 2 [chan receive, 5 minutes, locked to thread]:", "  goroutine 3 [select]:",
+	"main.main()", "main.f(0x1, {0x2, 0x3}, ...)", "\t/a/b.go:12 +0x1f", "    /a/c.go:7", "created by main.g in goroutine 1", "created by main.h",
+	"", "...additional frames elided...", "\tgoroutine running on other thread; stack unavailable",
+	"==================", "WARNING: DATA RACE", "Read at 0x00c000010000 by goroutine 7:", "Previous write at 0x00c000010000 by goroutine 6:",
+	"Goroutine 7 (running) created at:", "Goroutine 6 (finished) created at:", "Goroutine 9 (running) created at:",
+	"  main.racy()", "      /a/r.go:33 +0x44", "some junk line", "a.%41%41%41()", "goroutine x [running]:",
+}
+
 // ---- the mixes ----
 
 func opScan(r *rand.Rand, n int, tier, mix string) {
@@ -513,6 +523,35 @@ func opScan(r *rand.Rand, n int, tier, mix string) {
 				txt = mutate(r, txt)
 			}
 			emitScan(id, []byte(txt), genSched(r, len(txt)), genFinal(r), nameArgs, "mutant", "-", "-")
+		case "kinds": // sequences of line kinds: the scanner's state graph (quick: sampled; thorough: exhaustive up to length 4)
+			L := len(lineKinds)
+			var seq []int
+			if tier == "thorough" {
+				// enumerate: i in base L, lengths 1..4
+				k, rem := 1, i
+				for pw := L; rem >= pw && k < 4; pw *= L {
+					rem -= pw
+					k++
+				}
+				for j := 0; j < k; j++ {
+					seq = append(seq, rem%L)
+					rem /= L
+				}
+			} else {
+				k := 1 + r.Intn(7)
+				for j := 0; j < k; j++ {
+					seq = append(seq, r.Intn(L))
+				}
+			}
+			var b strings.Builder
+			for j, x := range seq {
+				b.WriteString(lineKinds[x])
+				if j != len(seq)-1 || r.Intn(6) != 0 {
+					b.WriteString("\n")
+				}
+			}
+			txt := b.String()
+			emitScan(id, []byte(txt), nil, genFinal(r), false, "kinds", "-", "-")
 		case "c09": // delivery: short contents x adversarial schedules, long lines
 			var txt string
 			switch r.Intn(4) {
